@@ -301,3 +301,23 @@ def html_diff(case, rr, doc_regex=None, pym_regex=None):
     if pym_regex and not re.search(pym_regex, obs.get("pymarkdown") or "", re.S):
         return False
     return True
+
+
+@matcher
+def c16_cr_translation(case, rr):
+    """fixed texts of two entry points differ only by the translation of CR / CR-LF line
+    endings to LF"""
+    obs = rr.get("observed") or {}
+    if "\r" not in (obs.get("doc") or ""):
+        return False
+    v = obs.get("violations") or []
+    if not v:
+        return False
+    tr = lambda t: t.replace("\r\n", "\n").replace("\r", "\n")
+    for x in v:
+        if x["kind"] != "fixed-text-disagrees":
+            return False
+        d = x["detail"]
+        if tr(d["a_text"]) != tr(d["b_text"]):
+            return False
+    return True
